@@ -14,6 +14,7 @@ def Instr.dest : Instr → Option Dest
   | .pop _ _ d => some d
   | .fresh _ d => some d
   | .read _ _ => none
+  | .shift _ _ => none
   | .swap _ _ _ => none
 
 /-- every value the program produces goes to the result (nothing is dropped, nothing is put into an argument) -/
@@ -168,6 +169,11 @@ theorem step_toRes (x : Nat) (st : St) (ins : Instr) (h : ∀ d, ins.dest = some
     obtain rfl := h d rfl
     simp only [step]
     exact ⟨by simp, fun b => by simp [argLive], fun b => by simp [argLen]⟩
+  | shift a i =>
+    simp only [step]
+    split
+    · exact ⟨rfl, fun b => Nat.le_refl _, fun b => rfl⟩
+    · exact ⟨by simp, fun b => by simp [argLive], fun b => by simp [argLen]⟩
 
 theorem run_toRes (x : Nat) (p : List Instr) (h : AllToRes p) (st : St) :
     (run p st).lost = st.lost ∧ (∀ b, argLive x (run p st) b ≤ argLive x st b) ∧ ∀ b, argLen (run p st) b = argLen st b := by
